@@ -8,7 +8,7 @@
   declined when `i == pos || level > 6`) or the setext parser (setext_headings.go:66-69: 1 or 2) — and no later step of
   the block phase writes a node's kind or level: every `modNode` of the model changes other fields only.
 
-  `Keeps m` ("when `m` answers normally from a store with `HeadOK`, the new store has `HeadOK`") is closed under
+  `Keeps I m` ("when `m` answers normally from a store with `HeadOK`, the new store has `HeadOK`") is closed under
   `bind` / `pure` / `if` / `match`, so the proof for a model function is a syntactic walk over its `do` block (tactic
   `keeps`, after GM.Proof.BlocksPres's `pres`). Partial correctness: a Go panic / fuel error satisfies it vacuously.
 -/
@@ -47,14 +47,16 @@ theorem headOKB_iff (s : St) : headOKB s = true ↔ HeadOK s := by
 theorem headP_default : HeadP (default : Node) := by
   intro h; cases h
 
-/-- `m` keeps `HeadOK` whenever it answers normally -/
-structure Keeps {α : Type} (m : M α) : Prop where
-  h : ∀ s a s', HeadOK s → m s = .ok (a, s') → HeadOK s'
+/-- `m` keeps the invariant `I` whenever it answers normally -/
+structure Keeps (I : St → Prop) {α : Type} (m : M α) : Prop where
+  h : ∀ s a s', I s → m s = .ok (a, s') → I s'
 
-theorem Keeps.pure {α} (a : α) : Keeps (pure a : M α) :=
+variable {I : St → Prop}
+
+theorem Keeps.pure {α} (a : α) : Keeps I (pure a : M α) :=
   ⟨fun s a' s' hs h => by cases h; exact hs⟩
 
-theorem Keeps.bind {α β} {m : M α} {f : α → M β} (hm : Keeps m) (hf : ∀ a, Keeps (f a)) : Keeps (m >>= f) := by
+theorem Keeps.bind {α β} {m : M α} {f : α → M β} (hm : Keeps I m) (hf : ∀ a, Keeps I (f a)) : Keeps I (m >>= f) := by
   constructor
   intro s b s'' hs h
   simp only [Bind.bind, StateT.bind] at h
@@ -65,103 +67,221 @@ theorem Keeps.bind {α β} {m : M α} {f : α → M β} (hm : Keeps m) (hf : ∀
     simp only [Except.bind] at h
     exact (hf p.1).h p.2 b s'' (hm.h s p.1 p.2 hs hms) h
 
-theorem Keeps.ite {α} {c : Prop} [Decidable c] {a b : M α} (ha : c → Keeps a) (hb : ¬ c → Keeps b) :
-    Keeps (if c then a else b) := by
+theorem Keeps.ite {α} {c : Prop} [Decidable c] {a b : M α} (ha : c → Keeps I a) (hb : ¬ c → Keeps I b) :
+    Keeps I (if c then a else b) := by
   split
   · exact ha ‹_›
   · exact hb ‹_›
 
-theorem Keeps.throw {α} (e : Panic) : Keeps (throw e : M α) :=
+theorem Keeps.throw {α} (e : Panic) : Keeps I (throw e : M α) :=
   ⟨fun _ _ _ _ h => by cases h⟩
 
+
+/-- a BLIND frame invariant: it does not look at the reader or the parse context, survives every write to a node that
+    leaves kind and level alone, and survives the allocation of a node with `HeadP`. (Heading levels, "node 0 is the
+    Document", "kinds never change" are of this form.) -/
+class Frame0 (I : St → Prop) : Prop where
+  ronly : ∀ (s : St) (r : Reader) (pc : Ctx), I s → I { s with r := r, pc := pc }
+  mod : ∀ (s : St) (id : Nat) (f : Node → Node), (∀ n, (f n).kind = n.kind ∧ (f n).level = n.level) → I s →
+    I { s with nodes := s.nodes.set id (f (s.nodes.getD id default)) }
+  new : ∀ (s : St) (n : Node), HeadP n → I s → I { s with nodes := s.nodes ++ [n] }
+
+namespace F0
 /-- a step that leaves the node store alone -/
-theorem Keeps.of_nodes {α} {m : M α} (h : ∀ s a s', m s = .ok (a, s') → s'.nodes = s.nodes) : Keeps m :=
-  ⟨fun s a s' hs hm => by intro n hn; rw [h s a s' hm] at hn; exact hs n hn⟩
+theorem Keeps.of_nodes [Frame0 I] {α} {m : M α} (h : ∀ s a s', m s = .ok (a, s') → s'.nodes = s.nodes) : Keeps I m :=
+  ⟨fun s a s' hs hm => by
+    have e : s' = { s with r := s'.r, pc := s'.pc } := by
+      cases s'; cases s; simp only [St.mk.injEq, true_and]; exact ⟨h _ _ _ hm, trivial⟩
+    rw [e]; exact Frame0.ronly s _ _ hs⟩
 
-theorem getNode_keeps (id : Nat) : Keeps (getNode id) :=
+theorem getNode_keeps [Frame0 I] (id : Nat) : Keeps I (getNode id) :=
   Keeps.of_nodes fun _ _ _ h => by cases h; rfl
-theorem getPc_keeps : Keeps getPc := Keeps.of_nodes fun _ _ _ h => by cases h; rfl
-theorem source_keeps : Keeps source := Keeps.of_nodes fun _ _ _ h => by cases h; rfl
-theorem position_keeps : Keeps position := Keeps.of_nodes fun _ _ _ h => by cases h; rfl
-theorem get_keeps : Keeps (get : M St) := Keeps.of_nodes fun _ _ _ h => by cases h; rfl
-theorem modPc_keeps (f) : Keeps (modPc f) := Keeps.of_nodes fun _ _ _ h => by cases h; rfl
-theorem advanceLine_keeps : Keeps advanceLine := Keeps.of_nodes fun _ _ _ h => by cases h; rfl
-theorem setPosition_keeps (l : Int) (p : Segment) : Keeps (setPosition l p) :=
+theorem getPc_keeps [Frame0 I] : Keeps I getPc := Keeps.of_nodes fun _ _ _ h => by cases h; rfl
+theorem source_keeps [Frame0 I] : Keeps I source := Keeps.of_nodes fun _ _ _ h => by cases h; rfl
+theorem position_keeps [Frame0 I] : Keeps I position := Keeps.of_nodes fun _ _ _ h => by cases h; rfl
+theorem get_keeps [Frame0 I] : Keeps I (get : M St) := Keeps.of_nodes fun _ _ _ h => by cases h; rfl
+theorem modPc_keeps [Frame0 I] (f) : Keeps I (modPc f) := Keeps.of_nodes fun _ _ _ h => by cases h; rfl
+theorem advanceLine_keeps [Frame0 I] : Keeps I advanceLine := Keeps.of_nodes fun _ _ _ h => by cases h; rfl
+theorem setPosition_keeps [Frame0 I] (l : Int) (p : Segment) : Keeps I (setPosition l p) :=
   Keeps.of_nodes fun _ _ _ h => by cases h; rfl
 
-theorem liftE_keeps {α} (e : Except Panic α) : Keeps (liftE e) :=
+theorem liftE_keeps [Frame0 I] {α} (e : Except Panic α) : Keeps I (liftE e) :=
   Keeps.of_nodes fun s a s' h => by
     unfold liftE at h
     cases e with
     | error x => simp [Except.map] at h
     | ok v => simp only [Except.map, Except.ok.injEq, Prod.mk.injEq] at h; rw [h.2]
 
-theorem peekLine_keeps : Keeps peekLine :=
+theorem peekLine_keeps [Frame0 I] : Keeps I peekLine :=
   Keeps.of_nodes fun s a s' h => by
     unfold peekLine at h
     cases hr : s.r.peekLine with
     | error x => simp [hr, bind, Except.bind] at h
     | ok v => simp only [hr, bind, Except.bind, pure, Except.pure, Except.ok.injEq, Prod.mk.injEq] at h; rw [← h.2]
 
-theorem lineOffset_keeps : Keeps lineOffset :=
+theorem lineOffset_keeps [Frame0 I] : Keeps I lineOffset :=
   Keeps.of_nodes fun s a s' h => by
     unfold lineOffset at h
     cases hr : s.r.lineOffsetOp with
     | error x => simp [hr, bind, Except.bind] at h
     | ok v => simp only [hr, bind, Except.bind, pure, Except.pure, Except.ok.injEq, Prod.mk.injEq] at h; rw [← h.2]
 
-theorem advance_keeps (n : Int) : Keeps (advance n) :=
+theorem advance_keeps [Frame0 I] (n : Int) : Keeps I (advance n) :=
   Keeps.of_nodes fun s a s' h => by
     unfold advance at h
     cases hr : s.r.advance n with
     | error x => simp [hr, bind, Except.bind] at h
     | ok v => simp only [hr, bind, Except.bind, pure, Except.pure, Except.ok.injEq, Prod.mk.injEq] at h; rw [← h.2]
 
-theorem advanceAndSetPadding_keeps (n p : Int) : Keeps (advanceAndSetPadding n p) :=
+theorem advanceAndSetPadding_keeps [Frame0 I] (n p : Int) : Keeps I (advanceAndSetPadding n p) :=
   Keeps.of_nodes fun s a s' h => by
     unfold advanceAndSetPadding at h
     cases hr : s.r.advanceAndSetPadding n p with
     | error x => simp [hr, bind, Except.bind] at h
     | ok v => simp only [hr, bind, Except.bind, pure, Except.pure, Except.ok.injEq, Prod.mk.injEq] at h; rw [← h.2]
 
-theorem skipBlankLinesR_keeps : Keeps skipBlankLinesR :=
+theorem skipBlankLinesR_keeps [Frame0 I] : Keeps I skipBlankLinesR :=
   Keeps.of_nodes fun s a s' h => by
     unfold skipBlankLinesR at h
     cases hr : skipBlankLines readerOps (loopFuel s.r.source) 0 s.r with
     | error x => simp [hr, bind, Except.bind] at h
     | ok v => simp only [hr, bind, Except.bind, pure, Except.pure, Except.ok.injEq, Prod.mk.injEq] at h; rw [← h.2]
 
-/-- a write to one node that keeps `HeadP` (in the model: every write that leaves kind and level alone) -/
-theorem modNode_keeps (id : Nat) (f : Node → Node) (hf : ∀ n, HeadP n → HeadP (f n)) : Keeps (modNode id f) := by
+/-- a write to one node that leaves its kind and level alone (in the model: EVERY write) -/
+theorem modNode_keeps [Frame0 I] (id : Nat) (f : Node → Node) (hf : ∀ n, (f n).kind = n.kind ∧ (f n).level = n.level) :
+    Keeps I (modNode id f) := by
   constructor
   intro s a s' hs h
   cases h
-  intro n hn
-  simp only at hn
-  rcases List.mem_or_eq_of_mem_set hn with h1 | h1
-  · exact hs n h1
-  · subst h1
-    apply hf
-    by_cases hlt : id < s.nodes.length
-    · have : s.nodes.getD id default = s.nodes[id] := by simp [List.getD, hlt]
-      rw [this]; exact hs _ (List.getElem_mem hlt)
-    · have : s.nodes.getD id default = default := by
-        simp [List.getD, List.getElem?_eq_none (Nat.le_of_not_lt hlt)]
-      rw [this]; exact headP_default
+  exact Frame0.mod s id f hf hs
 
 /-- a new node that has `HeadP` -/
-theorem newNode_keeps (n : Node) (hn : HeadP n) : Keeps (newNode n) := by
+theorem newNode_keeps [Frame0 I] (n : Node) (hn : HeadP n) : Keeps I (newNode n) := by
   constructor
   intro s a s' hs h
   cases h
-  intro m hm
-  simp only [List.mem_append, List.mem_singleton] at hm
-  rcases hm with h1 | h1
-  · exact hs m h1
-  · subst h1; exact hn
+  exact Frame0.new s n hn hs
 
-theorem appendLine_keeps (id : Nat) (seg : Segment) : Keeps (appendLine id seg) :=
-  modNode_keeps _ _ fun _ h => h
+theorem appendLine_keeps [Frame0 I] (id : Nat) (seg : Segment) : Keeps I (appendLine id seg) :=
+  modNode_keeps _ _ fun _ => ⟨rfl, rfl⟩
+
+macro "keeps0_step" : tactic =>
+  `(tactic| first
+    | with_reducible apply Keeps.pure
+    | with_reducible apply Keeps.bind
+    | with_reducible apply Keeps.ite
+    | with_reducible apply Keeps.throw
+    | with_reducible apply getNode_keeps
+    | with_reducible apply getPc_keeps
+    | with_reducible apply source_keeps
+    | with_reducible apply position_keeps
+    | with_reducible apply get_keeps
+    | with_reducible apply modPc_keeps
+    | with_reducible apply advanceLine_keeps
+    | with_reducible apply setPosition_keeps
+    | with_reducible apply liftE_keeps
+    | with_reducible apply peekLine_keeps
+    | with_reducible apply lineOffset_keeps
+    | with_reducible apply advance_keeps
+    | with_reducible apply advanceAndSetPadding_keeps
+    | with_reducible apply skipBlankLinesR_keeps
+    | with_reducible apply appendLine_keeps
+    | ((with_reducible apply modNode_keeps); exact fun _ => ⟨rfl, rfl⟩)
+    | ((with_reducible apply newNode_keeps); (intro h; cases h; done))
+    | apply_hyp
+    | intro _
+    | split)
+
+/-- walk over an `M` do block -/
+macro "keeps0" : tactic => `(tactic| repeat' keeps0_step)
+
+
+theorem fencedOpen_keeps [Frame0 I] (p : Nat) : Keeps I (fencedOpen p) := by
+  unfold fencedOpen; keeps0
+
+theorem htmlContinue_keeps [Frame0 I] (n : Nat) : Keeps I (htmlContinue n) := by
+  unfold htmlContinue; keeps0
+
+end F0
+
+/-- a FRAME invariant of the block-phase state (general form): it may look at the reader — then the seven reader
+    primitives are obligations — survives a change of the parse context, every write to a node that leaves kind, level,
+    info segment and closure line alone (in the model: EVERY `modNode` but the one in htmlBlockParser.Continue that sets the
+    closure line), the allocation of a node with `HeadP`, no info segment and no closure line (EVERY `newNode` but the one
+    of fencedCodeBlockParser.Open) — and the two exceptional parser functions are obligations of their own. -/
+class Frame (I : St → Prop) : Prop where
+  pcK : ∀ (s : St) (pc : Ctx), I s → I { s with pc := pc }
+  peekLineK : Keeps I peekLine
+  lineOffsetK : Keeps I lineOffset
+  advanceK : ∀ n, Keeps I (advance n)
+  advanceAndSetPaddingK : ∀ n p, Keeps I (advanceAndSetPadding n p)
+  advanceLineK : Keeps I advanceLine
+  setPositionK : ∀ l p, Keeps I (setPosition l p)
+  skipBlankLinesRK : Keeps I skipBlankLinesR
+  mod : ∀ (s : St) (id : Nat) (f : Node → Node),
+    (∀ n, (f n).kind = n.kind ∧ (f n).level = n.level ∧ (f n).info = n.info ∧ (f n).closure = n.closure) → I s →
+    I { s with nodes := s.nodes.set id (f (s.nodes.getD id default)) }
+  new : ∀ (s : St) (n : Node), HeadP n → n.info = none → n.closure.start = -1 → I s → I { s with nodes := s.nodes ++ [n] }
+  fencedOpenK : ∀ p, Keeps I (fencedOpen p)
+  htmlContinueK : ∀ n, Keeps I (htmlContinue n)
+
+/-- every blind frame invariant is a frame invariant -/
+instance (priority := low) frameOfBlind [Frame0 I] : Frame I where
+  pcK := fun s pc hs => by
+    have := Frame0.ronly s s.r pc hs
+    exact this
+  peekLineK := F0.peekLine_keeps
+  lineOffsetK := F0.lineOffset_keeps
+  advanceK := F0.advance_keeps
+  advanceAndSetPaddingK := F0.advanceAndSetPadding_keeps
+  advanceLineK := F0.advanceLine_keeps
+  setPositionK := F0.setPosition_keeps
+  skipBlankLinesRK := F0.skipBlankLinesR_keeps
+  mod := fun s id f hf hs => Frame0.mod s id f (fun n => ⟨(hf n).1, (hf n).2.1⟩) hs
+  new := fun s n hn _ _ hs => Frame0.new s n hn hs
+  fencedOpenK := F0.fencedOpen_keeps
+  htmlContinueK := F0.htmlContinue_keeps
+
+theorem getNode_keeps (id : Nat) : Keeps I (getNode id) := ⟨fun _ _ _ hs h => by cases h; exact hs⟩
+theorem getPc_keeps : Keeps I getPc := ⟨fun _ _ _ hs h => by cases h; exact hs⟩
+theorem source_keeps : Keeps I source := ⟨fun _ _ _ hs h => by cases h; exact hs⟩
+theorem position_keeps : Keeps I position := ⟨fun _ _ _ hs h => by cases h; exact hs⟩
+theorem get_keeps : Keeps I (get : M St) := ⟨fun _ _ _ hs h => by cases h; exact hs⟩
+theorem modPc_keeps [Frame I] (f) : Keeps I (modPc f) := ⟨fun s _ _ hs h => by cases h; exact Frame.pcK s _ hs⟩
+theorem advanceLine_keeps [Frame I] : Keeps I advanceLine := Frame.advanceLineK
+theorem setPosition_keeps [Frame I] (l : Int) (p : Segment) : Keeps I (setPosition l p) := Frame.setPositionK l p
+theorem liftE_keeps {α} (e : Except Panic α) : Keeps I (liftE e) :=
+  ⟨fun s a s' hs h => by
+    unfold liftE at h
+    cases e with
+    | error x => simp [Except.map] at h
+    | ok v => simp only [Except.map, Except.ok.injEq, Prod.mk.injEq] at h; rw [← h.2]; exact hs⟩
+theorem peekLine_keeps [Frame I] : Keeps I peekLine := Frame.peekLineK
+theorem lineOffset_keeps [Frame I] : Keeps I lineOffset := Frame.lineOffsetK
+theorem advance_keeps [Frame I] (n : Int) : Keeps I (advance n) := Frame.advanceK n
+theorem advanceAndSetPadding_keeps [Frame I] (n p : Int) : Keeps I (advanceAndSetPadding n p) :=
+  Frame.advanceAndSetPaddingK n p
+theorem skipBlankLinesR_keeps [Frame I] : Keeps I skipBlankLinesR := Frame.skipBlankLinesRK
+
+/-- a write to one node that leaves its kind, level, info segment and closure line alone -/
+theorem modNode_keeps [Frame I] (id : Nat) (f : Node → Node)
+    (hf : ∀ n, (f n).kind = n.kind ∧ (f n).level = n.level ∧ (f n).info = n.info ∧ (f n).closure = n.closure) :
+    Keeps I (modNode id f) := by
+  constructor
+  intro s a s' hs h
+  cases h
+  exact Frame.mod s id f hf hs
+
+/-- a new node that has `HeadP`, no info segment and no closure line -/
+theorem newNode_keeps [Frame I] (n : Node) (hn : HeadP n) (hi : n.info = none) (hc : n.closure.start = -1) :
+    Keeps I (newNode n) := by
+  constructor
+  intro s a s' hs h
+  cases h
+  exact Frame.new s n hn hi hc hs
+
+theorem appendLine_keeps [Frame I] (id : Nat) (seg : Segment) : Keeps I (appendLine id seg) :=
+  modNode_keeps _ _ fun _ => ⟨rfl, rfl, rfl, rfl⟩
 
 macro "keeps_step" : tactic =>
   `(tactic| first
@@ -184,8 +304,8 @@ macro "keeps_step" : tactic =>
     | with_reducible apply advanceAndSetPadding_keeps
     | with_reducible apply skipBlankLinesR_keeps
     | with_reducible apply appendLine_keeps
-    | ((with_reducible apply modNode_keeps); exact fun _ h => h)
-    | ((with_reducible apply newNode_keeps); (intro h; cases h; done))
+    | ((with_reducible apply modNode_keeps); exact fun _ => ⟨rfl, rfl, rfl, rfl⟩)
+    | ((with_reducible apply newNode_keeps) <;> first | rfl | (intro h; cases h; done))
     | apply_hyp
     | intro _
     | split)
@@ -195,52 +315,56 @@ macro "keeps" : tactic => `(tactic| repeat' keeps_step)
 
 /-! ### tree surgery -/
 
-theorem lastOpenedBlock_keeps : Keeps lastOpenedBlock := by
+section walk
+variable [Frame I]
+
+
+theorem lastOpenedBlock_keeps : Keeps I lastOpenedBlock := by
   unfold lastOpenedBlock; keeps
 
-theorem removeChild_keeps (p c : Nat) : Keeps (removeChild p c) := by
+theorem removeChild_keeps (p c : Nat) : Keeps I (removeChild p c) := by
   unfold removeChild; keeps
 
-theorem ensureIsolated_keeps (c : Nat) : Keeps (ensureIsolated c) := by
-  have := removeChild_keeps
+theorem ensureIsolated_keeps (c : Nat) : Keeps I (ensureIsolated c) := by
+  have := removeChild_keeps (I := I)
   unfold ensureIsolated; keeps
 
-theorem appendChild_keeps (p c : Nat) : Keeps (appendChild p c) := by
-  have := ensureIsolated_keeps
+theorem appendChild_keeps (p c : Nat) : Keeps I (appendChild p c) := by
+  have := ensureIsolated_keeps (I := I)
   unfold appendChild; keeps
 
-theorem insertBefore_keeps (p : Nat) (v1 : Option Nat) (ins : Nat) : Keeps (insertBefore p v1 ins) := by
-  have := ensureIsolated_keeps
-  have := appendChild_keeps
+theorem insertBefore_keeps (p : Nat) (v1 : Option Nat) (ins : Nat) : Keeps I (insertBefore p v1 ins) := by
+  have := ensureIsolated_keeps (I := I)
+  have := appendChild_keeps (I := I)
   unfold insertBefore; keeps
 
-theorem nextSibling_keeps (c : Nat) : Keeps (nextSibling c) := by
+theorem nextSibling_keeps (c : Nat) : Keeps I (nextSibling c) := by
   unfold nextSibling; keeps
 
-theorem insertAfter_keeps (p : Nat) (v1 : Option Nat) (ins : Nat) : Keeps (insertAfter p v1 ins) := by
-  have := appendChild_keeps
-  have := nextSibling_keeps
-  have := insertBefore_keeps
+theorem insertAfter_keeps (p : Nat) (v1 : Option Nat) (ins : Nat) : Keeps I (insertAfter p v1 ins) := by
+  have := appendChild_keeps (I := I)
+  have := nextSibling_keeps (I := I)
+  have := insertBefore_keeps (I := I)
   unfold insertAfter; keeps
 
-theorem replaceChild_keeps (p v1 ins : Nat) : Keeps (replaceChild p v1 ins) := by
-  have := insertBefore_keeps
-  have := removeChild_keeps
+theorem replaceChild_keeps (p v1 ins : Nat) : Keeps I (replaceChild p v1 ins) := by
+  have := insertBefore_keeps (I := I)
+  have := removeChild_keeps (I := I)
   unfold replaceChild; keeps
 
 /-! ### the ten block parsers -/
 
-theorem paragraphOpen_keeps (p : Nat) : Keeps (paragraphOpen p) := by
+theorem paragraphOpen_keeps (p : Nat) : Keeps I (paragraphOpen p) := by
   unfold paragraphOpen; keeps
 
-theorem paragraphContinue_keeps (n : Nat) : Keeps (paragraphContinue n) := by
+theorem paragraphContinue_keeps (n : Nat) : Keeps I (paragraphContinue n) := by
   unfold paragraphContinue; keeps
 
-theorem paragraphClose_keeps (n : Nat) : Keeps (paragraphClose n) := by
-  have := removeChild_keeps
+theorem paragraphClose_keeps (n : Nat) : Keeps I (paragraphClose n) := by
+  have := removeChild_keeps (I := I)
   unfold paragraphClose; keeps
 
-theorem thematicOpen_keeps (p : Nat) : Keeps (thematicOpen p) := by
+theorem thematicOpen_keeps (p : Nat) : Keeps I (thematicOpen p) := by
   unfold thematicOpen; keeps
 
 theorem scanWhileEq_ge (line : Bytes) (c : UInt8) (i : Int) (hi : 0 ≤ i) : i ≤ scanWhileEq line c i := by
@@ -257,118 +381,116 @@ theorem atx_level (line : Bytes) (c : UInt8) (pos : Int) (h0 : ¬ pos < 0)
   omega
 
 /-- atx_heading.go:93-99: the level is the length of the `#` run, and the parser declines unless it is 1..6 -/
-theorem atxOpen_keeps (p : Nat) : Keeps (atxOpen p) := by
+theorem atxOpen_keeps (p : Nat) : Keeps I (atxOpen p) := by
   unfold atxOpen
   keeps
   all_goals
-    apply newNode_keeps
+    refine newNode_keeps _ ?_ rfl rfl
     intro _
     exact atx_level _ _ _ (by assumption) (by assumption)
 
 /-- setext_headings.go:66-69: level 1 (`=`) or 2 (`-`) -/
-theorem setextOpen_keeps (p : Nat) : Keeps (setextOpen p) := by
-  have := lastOpenedBlock_keeps
-  have hnew : ∀ c : UInt8, Keeps (newNode { kind := .heading, level := if c == 45 then 2 else 1 }) := by
+theorem setextOpen_keeps (p : Nat) : Keeps I (setextOpen p) := by
+  have := lastOpenedBlock_keeps (I := I)
+  have hnew : ∀ c : UInt8, Keeps I (newNode { kind := .heading, level := if c == 45 then 2 else 1 }) := by
     intro c
-    apply newNode_keeps
+    refine newNode_keeps _ ?_ rfl rfl
     intro _
     simp only
     split <;> omega
   unfold setextOpen; keeps
 
-theorem setextClose_keeps (n : Nat) : Keeps (setextClose n) := by
-  have := removeChild_keeps
-  have := insertAfter_keeps
-  have := nextSibling_keeps
+theorem setextClose_keeps (n : Nat) : Keeps I (setextClose n) := by
+  have := removeChild_keeps (I := I)
+  have := insertAfter_keeps (I := I)
+  have := nextSibling_keeps (I := I)
   unfold setextClose; keeps
 
-theorem preserveLeadingTab_keeps (seg : Segment) (ind : Int) : Keeps (preserveLeadingTab seg ind) := by
+theorem preserveLeadingTab_keeps (seg : Segment) (ind : Int) : Keeps I (preserveLeadingTab seg ind) := by
   unfold preserveLeadingTab; keeps
 
-theorem codeTakeLine_keeps (n : Nat) (pos padding : Int) : Keeps (codeTakeLine n pos padding) := by
-  have := preserveLeadingTab_keeps
+theorem codeTakeLine_keeps (n : Nat) (pos padding : Int) : Keeps I (codeTakeLine n pos padding) := by
+  have := preserveLeadingTab_keeps (I := I)
   unfold codeTakeLine; keeps
 
-theorem codeOpen_keeps (p : Nat) : Keeps (codeOpen p) := by
-  have := codeTakeLine_keeps
+theorem codeOpen_keeps (p : Nat) : Keeps I (codeOpen p) := by
+  have := codeTakeLine_keeps (I := I)
   unfold codeOpen; keeps
 
-theorem codeContinue_keeps (n : Nat) : Keeps (codeContinue n) := by
-  have := codeTakeLine_keeps
+theorem codeContinue_keeps (n : Nat) : Keeps I (codeContinue n) := by
+  have := codeTakeLine_keeps (I := I)
   unfold codeContinue; keeps
 
-theorem codeClose_keeps (n : Nat) : Keeps (codeClose n) := by
+theorem codeClose_keeps (n : Nat) : Keeps I (codeClose n) := by
   unfold codeClose; keeps
 
-theorem fencedOpen_keeps (p : Nat) : Keeps (fencedOpen p) := by
-  unfold fencedOpen; keeps
+theorem fencedOpen_keeps (p : Nat) : Keeps I (fencedOpen p) := Frame.fencedOpenK p
 
-theorem fencedContinue_keeps (n : Nat) : Keeps (fencedContinue n) := by
-  have := preserveLeadingTab_keeps
+theorem fencedContinue_keeps (n : Nat) : Keeps I (fencedContinue n) := by
+  have := preserveLeadingTab_keeps (I := I)
   unfold fencedContinue; keeps
 
-theorem fencedClose_keeps (n : Nat) : Keeps (fencedClose n) := by
+theorem fencedClose_keeps (n : Nat) : Keeps I (fencedClose n) := by
   unfold fencedClose; keeps
 
-theorem blockquoteProcess_keeps : Keeps blockquoteProcess := by
+theorem blockquoteProcess_keeps : Keeps I blockquoteProcess := by
   unfold blockquoteProcess; keeps
 
-theorem blockquoteOpen_keeps (p : Nat) : Keeps (blockquoteOpen p) := by
-  have := blockquoteProcess_keeps
+theorem blockquoteOpen_keeps (p : Nat) : Keeps I (blockquoteOpen p) := by
+  have := blockquoteProcess_keeps (I := I)
   unfold blockquoteOpen; keeps
 
-theorem blockquoteContinue_keeps (n : Nat) : Keeps (blockquoteContinue n) := by
-  have := blockquoteProcess_keeps
+theorem blockquoteContinue_keeps (n : Nat) : Keeps I (blockquoteContinue n) := by
+  have := blockquoteProcess_keeps (I := I)
   unfold blockquoteContinue; keeps
 
-theorem lastOffset_keeps (n : Nat) : Keeps (lastOffset n) := by
+theorem lastOffset_keeps (n : Nat) : Keeps I (lastOffset n) := by
   unfold lastOffset; keeps
 
-theorem lastChildCount_keeps (n : Nat) : Keeps (lastChildCount n) := by
+theorem lastChildCount_keeps (n : Nat) : Keeps I (lastChildCount n) := by
   unfold lastChildCount; keeps
 
-theorem listOpen_keeps (p : Nat) : Keeps (listOpen p) := by
-  have := lastOpenedBlock_keeps
+theorem listOpen_keeps (p : Nat) : Keeps I (listOpen p) := by
+  have := lastOpenedBlock_keeps (I := I)
   unfold listOpen; keeps
 
-theorem listContinue_keeps (n : Nat) : Keeps (listContinue n) := by
-  have := lastOpenedBlock_keeps
-  have := lastOffset_keeps
-  have := lastChildCount_keeps
+theorem listContinue_keeps (n : Nat) : Keeps I (listContinue n) := by
+  have := lastOpenedBlock_keeps (I := I)
+  have := lastOffset_keeps (I := I)
+  have := lastChildCount_keeps (I := I)
   unfold listContinue; keeps
 
-theorem tightenItem_keeps (child : Nat) (gcs : List Nat) : Keeps (tightenItem child gcs) := by
-  have := replaceChild_keeps
+theorem tightenItem_keeps (child : Nat) (gcs : List Nat) : Keeps I (tightenItem child gcs) := by
+  have := replaceChild_keeps (I := I)
   induction gcs with
   | nil => unfold tightenItem; keeps
   | cons gc gcs ih => unfold tightenItem; keeps
 
-theorem tightenItems_keeps (cs : List Nat) : Keeps (tightenItems cs) := by
-  have := tightenItem_keeps
+theorem tightenItems_keeps (cs : List Nat) : Keeps I (tightenItems cs) := by
+  have := tightenItem_keeps (I := I)
   induction cs with
   | nil => unfold tightenItems; keeps
   | cons c cs ih => unfold tightenItems; keeps
 
-theorem listClose_keeps (n : Nat) : Keeps (listClose n) := by
-  have := tightenItems_keeps
+theorem listClose_keeps (n : Nat) : Keeps I (listClose n) := by
+  have := tightenItems_keeps (I := I)
   unfold listClose; keeps
 
-theorem listItemOpen_keeps (p : Nat) : Keeps (listItemOpen p) := by
-  have := lastOffset_keeps
+theorem listItemOpen_keeps (p : Nat) : Keeps I (listItemOpen p) := by
+  have := lastOffset_keeps (I := I)
   unfold listItemOpen; keeps
 
-theorem listItemContinue_keeps (n : Nat) : Keeps (listItemContinue n) := by
-  have := lastOffset_keeps
+theorem listItemContinue_keeps (n : Nat) : Keeps I (listItemContinue n) := by
+  have := lastOffset_keeps (I := I)
   unfold listItemContinue; keeps
 
-theorem htmlOpen_keeps (p : Nat) : Keeps (htmlOpen p) := by
-  have := lastOpenedBlock_keeps
+theorem htmlOpen_keeps (p : Nat) : Keeps I (htmlOpen p) := by
+  have := lastOpenedBlock_keeps (I := I)
   unfold htmlOpen; keeps
 
-theorem htmlContinue_keeps (n : Nat) : Keeps (htmlContinue n) := by
-  unfold htmlContinue; keeps
+theorem htmlContinue_keeps (n : Nat) : Keeps I (htmlContinue n) := Frame.htmlContinueK n
 
-theorem bpOpen_keeps (bp : BP) (p : Nat) : Keeps (bpOpen bp p) := by
+theorem bpOpen_keeps (bp : BP) (p : Nat) : Keeps I (bpOpen bp p) := by
   cases bp <;> unfold bpOpen
   · exact setextOpen_keeps p
   · exact thematicOpen_keeps p
@@ -381,7 +503,7 @@ theorem bpOpen_keeps (bp : BP) (p : Nat) : Keeps (bpOpen bp p) := by
   · exact htmlOpen_keeps p
   · exact paragraphOpen_keeps p
 
-theorem bpContinue_keeps (bp : BP) (n : Nat) : Keeps (bpContinue bp n) := by
+theorem bpContinue_keeps (bp : BP) (n : Nat) : Keeps I (bpContinue bp n) := by
   cases bp <;> unfold bpContinue
   · exact Keeps.pure _
   · exact Keeps.pure _
@@ -394,7 +516,7 @@ theorem bpContinue_keeps (bp : BP) (n : Nat) : Keeps (bpContinue bp n) := by
   · exact htmlContinue_keeps n
   · exact paragraphContinue_keeps n
 
-theorem bpClose_keeps (bp : BP) (n : Nat) : Keeps (bpClose bp n) := by
+theorem bpClose_keeps (bp : BP) (n : Nat) : Keeps I (bpClose bp n) := by
   cases bp <;> unfold bpClose
   · exact setextClose_keeps n
   · exact Keeps.pure _
@@ -410,110 +532,168 @@ theorem bpClose_keeps (bp : BP) (n : Nat) : Keeps (bpClose bp n) := by
 /-! ### the driver with paragraph transformers -/
 
 /-- every transformer of the list keeps the invariant -/
-def PTsKeep (pts : List PT) : Prop := ∀ pt ∈ pts, ∀ n, Keeps (pt n)
+def PTsKeep (I : St → Prop) (pts : List PT) : Prop := ∀ pt ∈ pts, ∀ n, Keeps I (pt n)
 
-theorem transformParagraph_keeps : ∀ (pts : List PT), PTsKeep pts → ∀ n, Keeps (transformParagraph pts n)
+theorem transformParagraph_keeps : ∀ (pts : List PT), PTsKeep I pts → ∀ n, Keeps I (transformParagraph pts n)
   | [], _, n => by unfold transformParagraph; keeps
   | pt :: pts, hp, n => by
-    have h1 : ∀ n, Keeps (pt n) := hp pt (List.mem_cons_self ..)
+    have h1 : ∀ n, Keeps I (pt n) := hp pt (List.mem_cons_self ..)
     have h2 := transformParagraph_keeps pts (fun q hq => hp q (List.mem_cons_of_mem _ hq))
     unfold transformParagraph; keeps
 
 theorem toContinuable_keeps (cont : Bool) (result : OpenResult) (lb : Option Block) :
-    Keeps (toContinuable cont result lb) := by
-  have := bpContinue_keeps
+    Keeps I (toContinuable cont result lb) := by
+  have := bpContinue_keeps (I := I)
   unfold toContinuable; keeps
 
 section driver
-variable {pts : List PT} (hp : PTsKeep pts)
+variable {pts : List PT} (hp : PTsKeep I pts)
 include hp
 
-theorem closeLoopT_keeps (blocks : List Block) (to : Int) (k : Nat) : Keeps (closeLoopT pts blocks to k) := by
-  have := bpClose_keeps
-  have := transformParagraph_keeps pts hp
+theorem closeLoopT_keeps (blocks : List Block) (to : Int) (k : Nat) : Keeps I (closeLoopT pts blocks to k) := by
+  have := bpClose_keeps (I := I)
+  have := transformParagraph_keeps (I := I) pts hp
   induction k with
   | zero => unfold closeLoopT; keeps
   | succ k ih => unfold closeLoopT; keeps
 
-theorem closeBlocksT_keeps (frm to : Int) : Keeps (closeBlocksT pts frm to) := by
-  have := closeLoopT_keeps hp
+theorem closeBlocksT_keeps (frm to : Int) : Keeps I (closeBlocksT pts frm to) := by
+  have := closeLoopT_keeps (I := I) hp
   unfold closeBlocksT; keeps
 
 theorem requireParaT_keeps (parent : Nat) (last : Option Nat) (lastBlock : Option Block) :
-    Keeps (requireParaT pts parent last lastBlock) := by
-  have := bpClose_keeps
-  have := transformParagraph_keeps pts hp
+    Keeps I (requireParaT pts parent last lastBlock) := by
+  have := bpClose_keeps (I := I)
+  have := transformParagraph_keeps (I := I) pts hp
   unfold requireParaT; keeps
 
 theorem tryParsersT_keeps (parent : Nat) (blankLine continuable : Bool) (w : Int) (bps : List BP)
     (result : OpenResult) (lastBlock : Option Block) :
-    Keeps (tryParsersT pts parent blankLine continuable w bps result lastBlock) := by
-  have := bpOpen_keeps
-  have := requireParaT_keeps hp
-  have := closeBlocksT_keeps hp
-  have := appendChild_keeps
-  have := lastOpenedBlock_keeps
+    Keeps I (tryParsersT pts parent blankLine continuable w bps result lastBlock) := by
+  have := bpOpen_keeps (I := I)
+  have := requireParaT_keeps (I := I) hp
+  have := closeBlocksT_keeps (I := I) hp
+  have := appendChild_keeps (I := I)
+  have := lastOpenedBlock_keeps (I := I)
   induction bps generalizing result lastBlock with
   | nil => unfold tryParsersT; keeps
   | cons bp bps ih => unfold tryParsersT; keeps
 
 theorem retryStepT_keeps (blank tdone cont : Bool) (parent : Nat) (w : Int) (bps : List BP) (result : OpenResult)
     (lb : Option Block) (again : Bool → Bool → Nat → OpenResult → Option Block → M OpenResult)
-    (hk : ∀ td c p r l, Keeps (again td c p r l)) :
-    Keeps (retryStepT pts blank tdone cont parent w bps result lb again) := by
-  have := tryParsersT_keeps hp
-  have := toContinuable_keeps
+    (hk : ∀ td c p r l, Keeps I (again td c p r l)) :
+    Keeps I (retryStepT pts blank tdone cont parent w bps result lb again) := by
+  have := tryParsersT_keeps (I := I) hp
+  have := toContinuable_keeps (I := I)
   unfold retryStepT; keeps
 
 theorem openBlocksLoopT_keeps (blank : Bool) : ∀ (fuel : Nat) (tdone cont : Bool) (parent : Nat) (result : OpenResult)
-    (lb : Option Block), Keeps (openBlocksLoopT pts blank fuel tdone cont parent result lb) := by
+    (lb : Option Block), Keeps I (openBlocksLoopT pts blank fuel tdone cont parent result lb) := by
   intro fuel
   induction fuel with
   | zero => intro _ _ _ _ _; unfold openBlocksLoopT; keeps
   | succ fuel ih =>
     intro tdone cont parent result lb
-    have := toContinuable_keeps
-    have := fun bl td c p w bps r l => retryStepT_keeps hp bl td c p w bps r l (openBlocksLoopT pts blank fuel) ih
+    have := toContinuable_keeps (I := I)
+    have := fun bl td c p w bps r l => retryStepT_keeps (I := I) hp bl td c p w bps r l (openBlocksLoopT pts blank fuel) ih
     unfold openBlocksLoopT; keeps
 
-theorem openBlocksT_keeps (parent : Nat) (blank : Bool) : Keeps (openBlocksT pts parent blank) := by
-  have := lastOpenedBlock_keeps
-  have := openBlocksLoopT_keeps hp
+theorem openBlocksT_keeps (parent : Nat) (blank : Bool) : Keeps I (openBlocksT pts parent blank) := by
+  have := lastOpenedBlock_keeps (I := I)
+  have := openBlocksLoopT_keeps (I := I) hp
   unfold openBlocksT; keeps
 
 theorem lineLoopT_keeps (parent : Nat) (ob : List Block) (li : Int) (rest : List Block) (i : Int) (bl : List LineStat) :
-    Keeps (lineLoopT pts parent ob li rest i bl) := by
-  have := closeBlocksT_keeps hp
-  have := bpContinue_keeps
-  have := openBlocksT_keeps hp
+    Keeps I (lineLoopT pts parent ob li rest i bl) := by
+  have := closeBlocksT_keeps (I := I) hp
+  have := bpContinue_keeps (I := I)
+  have := openBlocksT_keeps (I := I) hp
   induction rest generalizing i bl with
   | nil => unfold lineLoopT; keeps
   | cons be rest ih => unfold lineLoopT; keeps
 
-theorem linesLoopT_keeps (parent : Nat) : ∀ (fuel : Nat) (bl : List LineStat), Keeps (linesLoopT pts parent fuel bl) := by
+theorem linesLoopT_keeps (parent : Nat) : ∀ (fuel : Nat) (bl : List LineStat), Keeps I (linesLoopT pts parent fuel bl) := by
   intro fuel
   induction fuel with
   | zero => intro _; unfold linesLoopT; keeps
   | succ fuel ih =>
     intro bl
-    have := lineLoopT_keeps hp
+    have := lineLoopT_keeps (I := I) hp
     unfold linesLoopT; keeps
 
-theorem blocksLoopT_keeps (parent : Nat) : ∀ (fuel : Nat) (bl : List LineStat), Keeps (blocksLoopT pts parent fuel bl) := by
+theorem blocksLoopT_keeps (parent : Nat) : ∀ (fuel : Nat) (bl : List LineStat), Keeps I (blocksLoopT pts parent fuel bl) := by
   intro fuel
   induction fuel with
   | zero => intro _; unfold blocksLoopT; keeps
   | succ fuel ih =>
     intro bl
-    have := openBlocksT_keeps hp
-    have := linesLoopT_keeps hp
+    have := openBlocksT_keeps (I := I) hp
+    have := linesLoopT_keeps (I := I) hp
     unfold blocksLoopT; keeps
 
-theorem parseBlocksT_keeps (parent : Nat) : Keeps (parseBlocksT pts parent) := by
-  have := blocksLoopT_keeps hp
+theorem parseBlocksT_keeps (parent : Nat) : Keeps I (parseBlocksT pts parent) := by
+  have := blocksLoopT_keeps (I := I) hp
   unfold parseBlocksT; keeps
 
 end driver
+
+/-- **generic whole-run theorem**: a frame invariant that holds initially holds of the store the block phase returns, for
+    every source and every list of paragraph transformers that keep it -/
+theorem runT_keeps {pts : List PT} (hp : PTsKeep I pts) (src : Bytes) (h0 : I (initSt src)) (st : St)
+    (h : runT pts src = .ok st) : I st := by
+  unfold runT at h
+  cases hr : parseBlocksT pts 0 (initSt src) with
+  | error e => simp [hr, Except.map] at h
+  | ok x =>
+    simp only [hr, Except.map, Except.ok.injEq] at h
+    subst h
+    exact (parseBlocksT_keeps hp 0).h _ x.1 x.2 h0 hr
+
+/-! ### the link-reference paragraph transformer -/
+
+theorem transformFinish_keeps (node : Nat) (n : Node) (removes : List (Int × Int)) (refs : GM.LinkRef.RefMap) :
+    Keeps I (GM.LinkRef.transformFinish node n removes refs) := by
+  have := replaceChild_keeps (I := I)
+  unfold GM.LinkRef.transformFinish; keeps
+
+theorem transform_keeps (node : Nat) : Keeps I (GM.LinkRef.transform node) := by
+  have := transformFinish_keeps (I := I)
+  unfold GM.LinkRef.transform; keeps
+
+theorem guardedTransform_keeps (node : Nat) : Keeps I (GM.LinkRef.guardedTransform node) := by
+  have := transform_keeps (I := I)
+  unfold GM.LinkRef.guardedTransform; keeps
+
+end walk
+
+/-! ### instance 1: heading levels -/
+
+instance : Frame0 HeadOK where
+  ronly := fun _ _ _ h => h
+  mod := fun s id f hf hs => by
+    intro n hn
+    simp only at hn
+    rcases List.mem_or_eq_of_mem_set hn with h1 | h1
+    · exact hs n h1
+    · subst h1
+      have hk := hf (s.nodes.getD id default)
+      have hold : HeadP (s.nodes.getD id default) := by
+        by_cases hlt : id < s.nodes.length
+        · have : s.nodes.getD id default = s.nodes[id] := by simp [List.getD, hlt]
+          rw [this]; exact hs _ (List.getElem_mem hlt)
+        · have : s.nodes.getD id default = default := by
+            simp [List.getD, List.getElem?_eq_none (Nat.le_of_not_lt hlt)]
+          rw [this]; exact headP_default
+      intro h
+      rw [hk.1] at h
+      rw [hk.2]
+      exact hold h
+  new := fun s n hn hs => by
+    intro m hm
+    simp only [List.mem_append, List.mem_singleton] at hm
+    rcases hm with h1 | h1
+    · exact hs m h1
+    · subst h1; exact hn
 
 theorem headOK_init (src : Bytes) : HeadOK (initSt src) := by
   intro n hn
@@ -523,29 +703,30 @@ theorem headOK_init (src : Bytes) : HeadOK (initSt src) := by
 
 /-- **the store the block phase returns has `HeadOK`**, for every source and every list of paragraph transformers
     that keep it -/
-theorem runT_headOK {pts : List PT} (hp : PTsKeep pts) (src : Bytes) (st : St) (h : runT pts src = .ok st) :
-    HeadOK st := by
-  unfold runT at h
-  cases hr : parseBlocksT pts 0 (initSt src) with
-  | error e => simp [hr, Except.map] at h
-  | ok x =>
-    simp only [hr, Except.map, Except.ok.injEq] at h
-    subst h
-    exact (parseBlocksT_keeps hp 0).h _ x.1 x.2 (headOK_init src) hr
+theorem runT_headOK {pts : List PT} (hp : PTsKeep HeadOK pts) (src : Bytes) (st : St) (h : runT pts src = .ok st) :
+    HeadOK st :=
+  runT_keeps hp src (headOK_init src) st h
 
-/-! ### the link-reference paragraph transformer -/
+/-! ### instance 2: node 0 is the Document -/
 
-theorem transformFinish_keeps (node : Nat) (n : Node) (removes : List (Int × Int)) (refs : GM.LinkRef.RefMap) :
-    Keeps (GM.LinkRef.transformFinish node n removes refs) := by
-  have := replaceChild_keeps
-  unfold GM.LinkRef.transformFinish; keeps
+/-- the store is not empty and its first node is the Document -/
+def RootDoc (s : St) : Prop := ∃ d rest, s.nodes = d :: rest ∧ d.kind = .document
 
-theorem transform_keeps (node : Nat) : Keeps (GM.LinkRef.transform node) := by
-  have := transformFinish_keeps
-  unfold GM.LinkRef.transform; keeps
+instance : Frame0 RootDoc where
+  ronly := fun _ _ _ h => h
+  mod := fun s id f hf hs => by
+    obtain ⟨d, rest, e, hd⟩ := hs
+    cases id with
+    | zero => exact ⟨f d, rest, by simp [e], by rw [(hf d).1]; exact hd⟩
+    | succ k => exact ⟨d, rest.set k (f (s.nodes.getD (k + 1) default)), by simp [e], hd⟩
+  new := fun s n _ hs => by
+    obtain ⟨d, rest, e, hd⟩ := hs
+    exact ⟨d, rest ++ [n], by simp [e], hd⟩
 
-theorem guardedTransform_keeps (node : Nat) : Keeps (GM.LinkRef.guardedTransform node) := by
-  have := transform_keeps
-  unfold GM.LinkRef.guardedTransform; keeps
+theorem rootDoc_init (src : Bytes) : RootDoc (initSt src) := ⟨_, [], rfl, rfl⟩
+
+theorem runT_rootDoc {pts : List PT} (hp : PTsKeep RootDoc pts) (src : Bytes) (st : St) (h : runT pts src = .ok st) :
+    RootDoc st :=
+  runT_keeps hp src (rootDoc_init src) st h
 
 end GM.E2E
